@@ -28,6 +28,7 @@ C11-F1 C11 4d06c22
 C11-F2 C11 b7d6bc2 983d38b
 C11-F3 C11 318ba13 6e9fd16
 C11-F4 C11 1040c0d
+C11-F5 C11 89156ea
 C13-F1 C13 b816e76
 C13-F2 C13 8d10c89
 C13-F4 C13 f069c61
